@@ -25,7 +25,10 @@ def window_of(df, stab, annotation: str, inst) -> Tuple[int, int]:
 
 def graph_facts(g) -> Dict[str, Any]:
     """plain-Python view of a CPGraph"""
-    nodes = {n.idx: dict(ev=int(n.ev_idx), ts=int(n.ts), is_start=bool(n.is_start), blocking=bool(n.is_blocking)) for n in g.node_list}
+    def num(x):
+        return int(x) if float(x) == int(x) else float(x)  # whole numbers stay ints; quarter fractions are exact in binary
+
+    nodes = {n.idx: dict(ev=int(n.ev_idx), ts=num(n.ts), is_start=bool(n.is_start), blocking=bool(n.is_blocking)) for n in g.node_list}
     edges = []
     for u, v in g.edges:
         e = g.edges[u, v]["object"]
